@@ -181,6 +181,26 @@ def pyRemove : List Node → Node → R (List Node)
 def pyRemoveAll (l : List Node) (xs : List Node) : R (List Node) :=
   xs.foldlM pyRemove l
 
+/-- `x is None` -/
+def Node.isNone : Node → Bool
+  | .none => true
+  | _ => false
+
+/-- the name if the node is a Symbol -/
+def Node.symName? : Node → Option Name
+  | .sym n _ _ => some n
+  | _ => Option.none
+
+/-- CallFunction.with_result (False for every other class) -/
+def Node.withResult : Node → Bool
+  | .callFn _ _ _ _ _ wr => wr
+  | _ => false
+
+/-- `isinstance(x, LocalVariable) and x.name == 'menus'` -/
+def Node.isMenusVar : Node → Bool
+  | .leaf .localVar n _ => n == Name.s (S "menus")
+  | _ => false
+
 /-- FunctionDef -/
 structure FuncDef where
   name : Str
